@@ -100,8 +100,8 @@ def run_killed(sim, c, what):
     return killed
 
 
-def recover(env, fn, combos, bk=None):
-    """the documented recovery, by a fresh process"""
+def recover(env, fn, combos, bk=None, force_sow=False):
+    """the documented recovery, by a fresh process (force_sow: the user sows again whatever is there)"""
     bk = bk or dict(batchsize=BS)
     try:
         crop = cp.Crop(fn=fn, name="t", parent_dir=env.parent, **bk)
@@ -109,7 +109,7 @@ def recover(env, fn, combos, bk=None):
     except Exception:  # noqa  settings / function unreadable: sow again
         crop = cp.Crop(fn=fn, name="t", parent_dir=env.parent, autoload=False, **bk)
         need_sow = True
-    if need_sow:
+    if need_sow or force_sow:
         crop.sow_combos(combos, verbosity=0)
     crop.check_bad()
     if crop.missing_results():
@@ -117,8 +117,10 @@ def recover(env, fn, combos, bk=None):
     return crop.reap()
 
 
-def body_raw(E, phase, c, c2, rev, K, base, buf=False, nbm=False):
-    """nbm: the crop is sown by batch COUNT (num_batches=2 over 3 settings: sizes 2 and 1, a remainder)"""
+def body_raw(E, phase, c, c2, rev, K, base, buf=False, nbm=False, alt=False):
+    """nbm: the crop is sown by batch COUNT (num_batches=2 over 3 settings: sizes 2 and 1, a remainder)
+    alt (phase 0 only): after the interrupted sow the user sows OTHER values of the same shape under the same
+    name; what is reaped is the direct run over those, nothing of the interrupted sow survives"""
     bk = dict(num_batches=2) if cbool(nbm) else dict(batchsize=BS)
     phase = concretize(phase, 0, 4)
     K = concretize(K, 2, 3)
@@ -157,9 +159,12 @@ def body_raw(E, phase, c, c2, rev, K, base, buf=False, nbm=False):
             pass
         # (ii) recovery, possibly killed once more, then run to completion
         out = [None]
+        if cbool(alt) and phase == 0:
+            combos = {k: [v + 50 for v in vs] for k, vs in combos.items()}
+            ref = combo_runner(fn, combos, verbosity=0)
 
         def rec():
-            out[0] = recover(env, fn, combos, bk)
+            out[0] = recover(env, fn, combos, bk, force_sow=cbool(alt))
 
         sim.new_process()
         if run_killed(sim, c2, rec):
@@ -351,6 +356,11 @@ CONDS = (
                   fixed=dict(K=2, nbm=True), timeout=900,
                   bounds="as raw phases 0 (sow) and 1 (re-sow), for a crop sown by batch count with a remainder "
                          "(num_batches=2 over 3 settings): the recovery's re-sow of the prepared crop goes through")
+    + [make_cond(_G, "raw_sow_other", body_raw, "c:int c2:int rev:bool base:int buf:bool nbm:bool",
+                 ["0 <= c <= 22 and c2 == 40 and not rev"], fixed=dict(K=2, phase=0, alt=True), timeout=900,
+                 bounds="first sow killed after c steps (every c), then a fresh process sows OTHER values of the same "
+                        "shape under the same name (batchsize or batch-count crops), grows and reaps: exactly the "
+                        "direct run over the new values")]
     + split_conds(_G, "raw_second_crash", body_raw, "c:int c2:int rev:bool base:int buf:bool",
                   ["0 <= c <= 22 and 0 <= c2 <= 30"], "phase", [0, 2, 4], fixed=dict(K=2), timeout=3600,
                   tiers=("thorough",),
